@@ -15,12 +15,12 @@ for P in $PATCHES; do
   MODS=$(git -C $WT diff --name-only | sed -E 's#^(addons/processors/[^/]+)/.*#\1#; t; s#.*#.#' | sort -u)
   BUILD=ok
   for M in $MODS; do (cd $WT/$M && go build ./... >/dev/null 2>&1) || BUILD=broken; done
-  OUT=$(GOVC_REPO=$WT GOVC_EVIDENCE_DIR=/tmp/wt/selftest-ev GOVC_REPLAY_DIR=/tmp/wt/selftest-replays /verif/bin/govc check $ID 2>&1); RC=$?
+  OUT=$(GOVC_REPO=$WT GOVC_EVIDENCE_DIR=/tmp/wt/selftest-ev-$ID GOVC_REPLAY_DIR=/tmp/wt/selftest-replays-$ID /verif/bin/govc check $ID 2>&1); RC=$?
   N=$(echo "$OUT" | grep -c '^VIOLATION')
   FIRST=$(echo "$OUT" | grep '^VIOLATION' | head -2 | sed 's/.*obligation=//' | tr '\n' ' ')
   if [ $RC -eq 1 ] && [ $N -gt 0 ] && [ $BUILD = ok ]; then echo "SELFTEST $ID $(basename $P): caught ($N) $FIRST"; else echo "SELFTEST $ID $(basename $P): MISSED rc=$RC build=$BUILD"; echo "$OUT" | tail -3; FAIL=1; fi
   git -C $WT checkout -q -- . ; git -C $WT clean -fdq -e 'zz_verif_contracts*'
 done
 git -C /repo worktree remove --force $WT
-rm -rf /tmp/wt/selftest-ev /tmp/wt/selftest-replays
+rm -rf /tmp/wt/selftest-ev-$ID /tmp/wt/selftest-replays-$ID
 exit $FAIL
